@@ -12,7 +12,8 @@ META = {
              "handed out with its vigil taken under the lock that covers the listener's idle decision and the closing flip) every "
              "reachable state keeps every acknowledged, not deleted write in the memory of the mapped, not yet flushed instance or in "
              "the file — for every schedule, any number of request threads and any initial file; closed counterexamples for the "
-             "current facts: destroy_loses_acked_write and idle_close_loses_acked_write; classify_sound over three extracted facts."),
+             "unrepaired facts: destroy_loses_acked_write and idle_close_loses_acked_write; classify_sound over three extracted facts.  "
+             "In the repaired model a destroy that finds a record after the drain becomes a close (flush, unmap)."),
     "note": ("PARTIAL: time is abstracted to listener read/decide steps (the 30 s summon wait and the 10 s + 30 s graceful-stop "
              "timeouts are not modelled); graceful stop is covered only as `Close()` with nothing in flight (tryToCloseAllSwamps calls "
              "Close() without looking at vigils — the same window as the idle close, not forced here); the three CloneAndDelete* "
